@@ -320,6 +320,44 @@ impl<F: codec::Decode> codec::Decode for Wrapping<F> {
 
 impl<F: Fixed> Wrapping<F> {""")
 
+@mutant("own18-using-encoded-one-16bit-pattern", True, "from the harness review: only using_encoded, only the 16-bit families, only bits == 0x1234 (byte-swapped); not realistic, it demonstrates that the 16-bit sweep's rotating second record reaches every writer with every pattern")
+def m18():
+    manual_codec("""            #[inline]
+            fn size_hint(&self) -> usize {
+                core::mem::size_of::<$Inner>()
+            }
+            fn encode_to<W: codec::Output + ?Sized>(&self, dest: &mut W) {
+                dest.write(&self.bits.to_le_bytes());
+            }
+            fn using_encoded<R, F: FnOnce(&[u8]) -> R>(&self, f: F) -> R {
+                let mut b = self.bits.to_le_bytes();
+                if b.len() == 2 && b.first() == Some(&0x34) && b.get(1) == Some(&0x12) {
+                    b.reverse();
+                }
+                f(&b)
+            }""", DEC_LE)
+
+@mutant("own19-max-encoded-len-asserts", True, "from the harness review: a hand-written MaxEncodedLen that panics (debug-style assertion) for the 128-bit families; clause b of C10, previously reported as a harness error because the call was not under catch_unwind")
+def m19():
+    manual_codec(mel_body="""            fn max_encoded_len() -> usize {
+                assert!(core::mem::size_of::<$Inner>() < 16, "wide types are not storage-safe yet");
+                core::mem::size_of::<$Inner>()
+            }""", keep_encode=True, keep_decode=True, keep_mel=False)
+
+@mutant("own20-encode-panics-on-one-32bit-pattern", True, "from the harness review: encode_to panics for bits == 0x12345678 of the 32-bit families only; demonstrates that the exhaustive 32-bit sweep pins the exact pattern when a chunk unwinds")
+def m20():
+    manual_codec("""            #[inline]
+            fn size_hint(&self) -> usize {
+                core::mem::size_of::<$Inner>()
+            }
+            fn using_encoded<R, F: FnOnce(&[u8]) -> R>(&self, f: F) -> R {
+                let b = self.bits.to_le_bytes();
+                if b.len() == 4 && b.first() == Some(&0x78) && b.get(1) == Some(&0x56) && b.get(2) == Some(&0x34) && b.get(3) == Some(&0x12) {
+                    panic!("unreachable fixed-point state");
+                }
+                f(&b)
+            }""", DEC_LE)
+
 # ---- refactorings that must NOT raise an alarm
 @mutant("ok01-fields-reordered", False, "n/a: phantom field first; encoding unchanged")
 def n01():
